@@ -3,12 +3,10 @@ from __future__ import annotations
 
 import ast
 
-from ..flow import enumerate_paths
-from ..source import norm, const_value, walk_no_nested
-from .common import is_name, params, returns_of, single_return
+from ..source import norm, walk_no_nested
+from .common import is_name
 from .config_rules import check_constants
 from . import array_folds as af
-from .vector_rules import check_component_map, VECTOR
 
 from . import quantity_stack as qs
 
